@@ -44,7 +44,7 @@ package publish
 //@   callsite "cf.updateRecord(" requires[F:requested-record] has(data, zoneName{r.Zone, r.Name}) && bytesEq(arg1, data[zoneName{r.Zone, r.Name}].ZoneID) && bytesEq(arg2, data[zoneName{r.Zone, r.Name}].RecordID)
 //@   callsite "cf.updateRecord(" requires[F:other-fields-kept] arg3.Priority == data[zoneName{r.Zone, r.Name}].Data.Priority && arg3.Target == data[zoneName{r.Zone, r.Name}].Data.Target
 //@   callsite "cf.updateRecord(" requires[F:value] cid(arg3.Value) == joinOf(newParams, cid(" ")) && len(newParams) == kept(params, len(params)) + 1 &&
-//@       cid(newParams[len(newParams)-1]) == fmtId("ech=\"%s\"", newValue) && cid(newValue) == b64std(cid(configList))
+//@       cid(newParams[len(newParams)-1]) == fmtId("ech=\"%s\"", newValue) && cid(newValue) == b64of(base64.StdEncoding, cid(configList))
 //@   loop 1 "range records"
 //@     invariant[F:one-each] len(results) == ri1
 //@     invariant[F:in-sync] inSync(data) && data != nil && zones != nil
